@@ -66,7 +66,12 @@ def goodCfg (h : Host) : Cfg :=
     childrenPopSelf := true
     probeLenient := h.lenient
     asDictSkipCatch := ["NotImplementedError"]
-    asDictSkipRule := "if attrs: raise; continue" }
+    asDictSkipRule := "if attrs: raise; continue"
+    parentRootGuard := true }
+
+/-- the source before /repo d7107b4: the lowest-PID stop of parent() answers None without any identity probe -/
+def preRootGuardCfg (h : Host) : Cfg :=
+  { goodCfg h with parentRootGuard := false }
 
 /-- the source before the repair of lead L3: ppid_map() tolerates only ENOENT / ESRCH -/
 def preFixCfg (h : Host) : Cfg :=
